@@ -119,6 +119,11 @@ static void run(Src &s) {
     o.indent_headers = false;
     if (optset & 2) o.header_trail = false;  // under PYTHON_STYLE text after a value/header is not a comment
   }
+  // a comment character is a byte, not necessarily an ASCII one
+  if (s.chance(8)) {
+    o.custom_C = s.chance(50) ? "#\xA7" : "\xA7;";
+    g_case.tag("non_ascii_comment_character");
+  }
   GFile f = gen_file(s, o);
   // an empty comment argument selects the default '#': every entry point has to treat it the same way
   if (f.C == "#" && s.chance(15)) {
@@ -179,7 +184,7 @@ static void run(Src &s) {
     if (l.kind != L_COMMENT) l2.push_back(l.text);
   std::string t2 = join(l2);
 
-  g_case.desc = std::string("D='") + esc(f.D) + "' C='" + f.C + "' F='" + esc(t0) + "' F+ins='" + esc(t1) + "'";
+  g_case.desc = std::string("D='") + esc(f.D) + "' C='" + esc(f.C) + "' F='" + esc(t0) + "' F+ins='" + esc(t1) + "'";
   g_case.tag(std::string("delim_") + CLASS_NAME[f.cls]);
   if (indented_any) g_case.tag("indented_insert");
   if (multi_cc) g_case.tag("second_comment_char");
